@@ -43,6 +43,10 @@ func init() {
 		Variant{ID: "c05-r5-ctor-leak", Prop: "C05", File: "slave_connection.go",
 			Old: "\tif err := s.prepareForReplication(); err != nil {\n\t\ts.close()\n", New: "\tif err := s.prepareForReplication(); err != nil {\n",
 			Expect: "C05-R5 release@newSlaveConnection"},
+		Variant{ID: "c05-r5-close-before-attach", Prop: "C05", File: "slave_connection.go",
+			Old: "\t\tdc:      m,\n", New: "",
+			Old2: "\t\ts.close()\n\t\treturn nil, err\n\t}\n", New2: "\t\ts.close()\n\t\treturn nil, err\n\t}\n\ts.dc = m\n",
+			Expect: "C05-R5 release@newSlaveConnection"},
 		Variant{ID: "c05-r5-ctor-returns-open-conn-with-error", Prop: "C05", File: "slave_connection.go",
 			Old: "\tif err := s.prepareForReplication(); err != nil {\n\t\ts.close()\n\t\treturn nil, err\n\t}\n\n\treturn s, nil\n", New: "\treturn s, s.prepareForReplication()\n",
 			Expect: "C05-R5 release@newSlaveConnection"},
@@ -701,13 +705,41 @@ func c05R5(a *A, r *Roles) {
 				}
 				// returned together with a possibly non-nil error: Stream returns on that error before its deferred close
 			}
-			closed := false
+			closed, attached := false, false
 			for b := ret.Block(); b != nil; b = b.Idom() {
 				for _, in := range b.Instrs {
 					if c, ok := in.(*ssa.Call); ok && c.Common().StaticCallee() == r.CloseConn && len(c.Common().Args) == 1 && c.Common().Args[0] == alloc {
 						closed = true
+						// close() closes what the object holds: the driver connection must be in the object by then
+						instrs(r.NewConn, func(i2 ssa.Instruction) {
+							st, ok := i2.(*ssa.Store)
+							if !ok {
+								return
+							}
+							fa, ok := st.Addr.(*ssa.FieldAddr)
+							if !ok || fa.X != alloc {
+								return
+							}
+							if _, isIface := st.Val.Type().Underlying().(*types.Interface); isIface && !isNilConst(st.Val) && instrDominates(st, c) {
+								attached = true
+							}
+						})
 					}
 				}
+			}
+			// closing the driver connection directly is as good
+			for b := ret.Block(); b != nil && !(closed && attached); b = b.Idom() {
+				for _, in := range b.Instrs {
+					if c, ok := in.(*ssa.Call); ok && c.Common().IsInvoke() && c.Common().Method.Name() == "Close" && len(c.Common().Args) == 0 {
+						if _, fromFactory := resolve(c.Common().Value).(*ssa.Extract); fromFactory {
+							closed, attached = true, true
+						}
+					}
+				}
+			}
+			if closed && !attached {
+				a.viol(rule, key, w.posOf(ret), "the constructor calls close() on its failure path before the driver connection was stored in the object: close() finds nothing to close (and uses up its sync.Once), the socket leaks")
+				continue
 			}
 			a.check(closed, rule, key, w.posOf(ret), "closes the connection before failing", "the constructor fails after the driver connection exists without closing it: the socket leaks")
 		}
